@@ -263,3 +263,13 @@ def canary(env):
         tau = T.stack([x[0, t, 0], u[0, t, 0]])
         tot = tot + (tau @ Qm[0] @ tau) / 2
     env.eq('cost without p', cost[0], tot)
+
+
+# callee contracts: the obligations above state "satisfies the system's transition" against x' = A_t x + B_t u + c1 written out from
+# the tensors handed to the system; that a system BUILT by the documented constructors advances by exactly that map is the contract
+# of LTI / LTV (stated once, in c15_dynamics.py) and is discharged in this check too.
+from contracts import c15_dynamics as _c15
+for (_kls, _wc), _fn in _c15.LTI_CONTRACTS.items():
+    if _wc:
+        obligation(f'C14.callee.{_kls}.{"affine" if _wc is True else "c1_only"}', functions=[f'{DYN}:{_kls}.__init__', f'{DYN}:LTI.state_transition', f'{DYN}:LTI.observation'],
+                   note='callee contract assumed by the C14 obligations (same contract function as C15)')(_fn)
